@@ -122,10 +122,18 @@ func (r *dataReader) Read(b []byte) (n int, err error) {
 				r.state = stateEOF
 				continue
 			}
-			r.state = stateData
+			// Not the end marker: deliver the CR that was held back and
+			// look at c again from the "after CR" state.
+			r.r.UnreadByte()
+			c = '\r'
+			r.state = stateCR
 		case stateCR:
 			if c == '\n' {
 				r.state = stateBeginLine
+				break
+			}
+			if c == '\r' {
+				// Still "after CR": the next octet may complete a CRLF.
 				break
 			}
 			r.state = stateData
